@@ -449,6 +449,9 @@ type File struct {
 
 var funcNames = []string{"Process", "Handle", "Compute", "Walk", "Beacon", "Encode", "Merge", "Probe", "Reduce", "Scan", "Filter", "Collect", "Drain", "Pump", "Fold", "Relay"}
 
+// LineDirectives switches on //line directives in rendered files.
+var LineDirectives = true
+
 // RenderFile renders a file from a list of functions. typeDecl adds the Box
 // type (needed once per package when methods are present) and the generic
 // helper with two instantiations.
@@ -475,7 +478,12 @@ func UseMapAll() (int, string) {
 
 `)
 	}
-	for _, f := range funcs {
+	for i, f := range funcs {
+		if LineDirectives && len(funcs) > 2 && i == len(funcs)-1 && f.Shape.P[3]%2 == 0 {
+			// generated-code style position directive: the functions after it are
+			// attributed to another file name / line by every go/token based tool
+			sb.WriteString(fmt.Sprintf("//line gen_%s.y:%d\n", strings.ToLower(f.Name), 50+f.Shape.P[2]))
+		}
 		sb.WriteString(f.Shape.Render(f.Name, f.Recv))
 		sb.WriteString("\n")
 	}
